@@ -245,10 +245,18 @@ impl Router {
             Event::NewAlert(tx) => self.handle_new_alert(tx),
             Event::DeviceData => self.handle_device_payload(id),
             Event::Disconnect => self.handle_disconnection(id, None),
-            Event::Ready => self.scheduler.reschedule(id, ScheduleReason::Ready),
-            Event::Shadow(request) => {
-                retrieve_shadow(&mut self.datalog, &mut self.obufs[id], request)
+            Event::Ready => {
+                // the connection can be gone by the time its link's signal arrives
+                if self.scheduler.trackers.contains(id) {
+                    self.scheduler.reschedule(id, ScheduleReason::Ready)
+                } else {
+                    error!("no-connection id {} is already gone", id);
+                }
             }
+            Event::Shadow(request) => match self.obufs.get_mut(id) {
+                Some(outgoing) => retrieve_shadow(&mut self.datalog, outgoing, request),
+                None => error!("no-connection id {} is already gone", id),
+            },
             Event::SendAlerts => {
                 self.send_alerts();
             }
